@@ -146,13 +146,17 @@ def canon_table(t):
     if pk and not pk["cols"]:
         pk = None
     return {
-        "cols": [(c["name"], c["ty"], c["nullable"], c["default"], bool(c["pk"])) for c in t["cols"]],
+        "cols": [(c["name"], c["ty"], c["nullable"], c["default"], bool(c["pk"]), c.get("computed"), bool(c.get("persisted")))
+                 for c in t["cols"]],
         "pk": (pk["name"], tuple(pk["cols"])) if pk else None,
         "uniques": sorted(((u["name"] or ""), tuple(u["cols"])) for u in t["uniques"]),
         "checks": sorted(((k["name"] or ""), k["text"]) for k in t["checks"]),
         "fks": sorted(((f["name"] or ""), tuple(f["cols"]), f["rtable"], tuple(f["rcols"])) for f in t["fks"]),
         "indexes": sorted((i["name"], tuple(i["cols"]), bool(i["unique"]), bi.norm_where(i.get("where"))) for i in t["indexes"]),
-        "rows": sorted(json.dumps([None if v is None else {k: v[k] for k in v if k in "irtbcv" or k == "cast"} for v in r], sort_keys=True)
+        # cells of generated columns are recomputed by the database: compared as a placeholder on both sides
+        "rows": sorted(json.dumps([("<generated>" if (i < len(t["cols"]) and t["cols"][i].get("computed")) else
+                                    None if v is None else {k: v[k] for k in v if k in "irtbcv" or k == "cast"})
+                                   for i, v in enumerate(r)], sort_keys=True)
                        for r in t["rows"]),
     }
 
@@ -187,9 +191,9 @@ def ix_order_of(stmts, table):
 # ------------------------------------------------------------------------------- one case
 
 def new_case(table, ops, recreate="always", copy_from=False, fault=None, scope="none", iso="default", tddl=None,
-             fkind="exception"):
+             fkind="exception", pr=None):
     return {"table": table, "ops": ops, "recreate": recreate, "copy_from": copy_from, "fault": fault, "scope": scope,
-            "iso": iso, "tddl": tddl, "fkind": fkind}
+            "iso": iso, "tddl": tddl, "fkind": fkind, "pr": pr}
 
 
 def run_impl(case):
@@ -197,7 +201,7 @@ def run_impl(case):
     try:
         return bi.run_batch(db, case["ops"], recreate=case["recreate"], copy_from=case["copy_from"],
                             fault=case["fault"], scope=case["scope"], universe=bg.universe(case["table"], case["ops"]),
-                            tddl=case.get("tddl"), fkind=case.get("fkind", "exception"))
+                            tddl=case.get("tddl"), fkind=case.get("fkind", "exception"), pr=case.get("pr"))
     finally:
         db.close()
 
@@ -248,6 +252,7 @@ def model_op(case, r):
         "mode": case.get("iso", "default"),
         "tddl": bool(case.get("tddl")),
         "fault_kind": case.get("fkind", "exception"),
+        "partial_reordering": case.get("pr") or [],
         "db": {"orig": jtable(before, ix_order_of(r["stmts"], before)) if before else None, "tmp": jtable(r["before"].get("tmp"))},
         "convs": conv_table(src, case["ops"]) if src else [],
     }
@@ -256,7 +261,8 @@ def model_op(case, r):
 def spec10_op(case, r):
     return {"op": "batch.spec10", "table": case["table"]["name"], "ops": [jop(o) for o in case["ops"]],
             "before": jtable(r["before"]["orig"]), "after": jtable(r["fresh"]["orig"]),
-            "tmp_like": r["fresh"]["tmp_like"], "convs": conv_table(r["before"]["orig"], case["ops"])}
+            "tmp_like": r["fresh"]["tmp_like"], "convs": conv_table(r["before"]["orig"], case["ops"]),
+            "partial_reordering": case.get("pr") or []}
 
 
 def failed_early(stmts):
